@@ -83,7 +83,7 @@ def one_repo(args):
         for p in files:
             b = os.path.basename(p)
             fclass.append([namer.path(p), 'ebuild' if b.endswith('.ebuild') else 'metadata.xml' if b == 'metadata.xml' else 'other'])
-        return [{'profile': profile, 'prior': prior, 'hashes': sorted(hashes), 'sort': sort, 'wm': wm, 'end': end,
+        return [{'mode': 'create', 'written': [], 'newfiles': [], 'profile': profile, 'prior': prior, 'hashes': sorted(hashes), 'sort': sort, 'wm': wm, 'end': end,
                  's1': s1, 'dirs': dirs, 'fclass': fclass, 'verify_after': va,
                  'meta': {'seed': seed, 'idx': idx, 'argv': argv[:-1], 'exc': obs['exc'], 'errors': obs['errors'][:2], 'tb': obs.get('tb', '')}}]
     finally:
@@ -103,8 +103,9 @@ def one_repo_update(args):
     root = tlc.scratch_dir('vpu')
     try:
         roles, files = repogen.build(rng, root, portable=False)
-        profile = rng.choice(['ebuild', 'old-ebuild'])
-        obs = gem.run_cli(['create', '-p', profile, root])
+        cprofile, profile = rng.choice([('ebuild', 'ebuild'), ('old-ebuild', 'old-ebuild'), ('ebuild', 'old-ebuild'),
+                                        ('ebuild', 'old-ebuild'), ('old-ebuild', 'ebuild')])
+        obs = gem.run_cli(['create', '-p', cprofile, root])
         if obs['end'] != 'ok' or obs['status'] != 0:
             return []
         # edits
@@ -133,6 +134,17 @@ def one_repo_update(args):
             elif kind == 'add_top':
                 with open(os.path.join(root, 'NEWS-%d' % rng.randrange(9)), 'wb') as f:
                     f.write(b'news')
+        before_files = set()
+        for dp, dn, fn in os.walk(root):
+            for f in fn:
+                before_files.add(os.path.relpath(os.path.join(dp, f), root))
+        newfiles = []
+        for dp, dn, fn in os.walk(root):
+            for f in fn:
+                rel = os.path.relpath(os.path.join(dp, f), root)
+                if rel not in files and not f.startswith('Manifest'):
+                    newfiles.append(rel)
+                    b = os.path.basename(rel)
         opts = {'hashes': ['BLAKE2B', 'SHA512'], 'sub': '', 'sort': None, 'force': False, 'wm': 128, 'fmt': 'gz',
                 'profile': profile}
         namer = fm.Namer()
@@ -142,6 +154,37 @@ def one_repo_update(args):
             r['ev']['opts']['wm'] = 128
             r['ev']['opts']['fmt'] = 'gz'
             r['ev']['opts']['sort'] = 'on'
-        return recs
+            if cprofile != profile:
+                r['ev']['opts']['wm'] = -1        # the watermark iff is the update family's clause; with mixed
+                # profiles (old-ebuild package rule) it is judged by TraceProfile's update clauses instead
+        # the profile's own obligations after the update (TraceProfile, mode "update")
+        prof_recs = []
+        if recs:
+            r0 = recs[0]
+            dirs = []
+            for dp, dn, fn in os.walk(root):
+                rel = os.path.relpath(dp, root)
+                rel = '' if rel == '.' else rel
+                role = roles.get(rel)
+                if role is None:
+                    # directories created by the edits (files/) inherit from their parent
+                    par = roles.get(os.path.dirname(rel))
+                    role = 'pkgfiles' if par == 'package' and os.path.basename(rel) == 'files' else \
+                        'pkgfiles-sub' if par in ('pkgfiles', 'pkgfiles-sub') else 'top-plain'
+                    roles[rel] = role
+                dirs.append({'p': namer.path(rel), 'role': role, 'name': os.path.basename(rel)})
+            fclass = []
+            for nf in newfiles + sorted(files):
+                b = os.path.basename(nf)
+                fclass.append([namer.path(nf), 'ebuild' if b.endswith('.ebuild') else 'metadata.xml' if b == 'metadata.xml' else 'other'])
+            prof_recs.append({'mode': 'update', 'profile': profile, 'prior': False, 'hashes': ['BLAKE2B', 'SHA512'],
+                              'sort': True, 'wm': 128, 'end': r0['ev']['end'] if r0['ev']['end'] in ('ok',) else 'fail',
+                              's1': r0['s1'], 'dirs': dirs, 'fclass': fclass, 'written': r0['written'],
+                              'newfiles': [namer.path(x) for x in newfiles],
+                              'verify_after': r0['verify_after'] or 'ok',
+                              'meta': {'seed': seed, 'idx': idx, 'create': cprofile, 'update': profile}})
+            for m in r0['s1']['mfs']:
+                m.setdefault('sorted', True)
+        return recs + prof_recs
     finally:
         shutil.rmtree(root, ignore_errors=True)
